@@ -711,6 +711,9 @@ class Screen(BaseScreen, RealTerminal):
             x, y = canvas.cursor
             output += [set_cursor_position(x, y), escape.SHOW_CURSOR]
             self._cy = y
+        else:
+            # without a cursor the terminal stays on the row painted last
+            self._cy = cy
 
         if self._resized:
             # handle resize before trying to draw screen
